@@ -20,10 +20,10 @@ claim("C05", "Coq proof (LZSS round trip for all token streams and dialects; cal
       "Proof: lzss_roundtrip, lzss_impl_refines_spec, lzss_end_to_end, kwaj_open_enc, kwaj_file_none, kwaj_xor_roundtrip, KWAJ SZDD file round trip (all closed). Tie: the pure decoder vs the C lzss_decompress on encoder output, damaged and random streams at several buffer sizes; Model/Kwaj.v (headers + extract for NONE/XOR/SZDD/MSZIP) vs kwajd.c on generated and damaged KWAJ files; SZDD/KWAJ files built by the generator are opened/extracted through the real API and compared with the generator's header fields and plaintext (KWAJ MSZIP payload by correspondence only, LZH by generator oracle only).",
       NOTE, "4/C05")
 
-claim("C09", "Coq proof (Hoare logic over a ledger monitor, for every host) on the SZDD/LZSS port + L2 model/C callback correspondence with fault injection + fault sweep of the C library",
+claim("C09", "Coq proof (Hoare logic over a ledger monitor, for every host) on the SZDD/LZSS and KWAJ ports + L2 model/C callback correspondence with fault injection + fault sweep of the C library",
       "Proof: for every oracle (all inputs and all combinations of open/read/write/seek/alloc failures), the SZDD scripts (create; decompress; destroy / create; open; extract x2; close; destroy) leave no live allocation and no open handle and never free/close anything not live (2 theorems, closed). The port is tied to szddd.c+lzssd.c by identical callback traces under every single fault. The other four front ends (CAB, CHM, KWAJ, OAB) are covered by the fault sweep of the real library only (ledger read from the instrumented system) - stated as partial.",
       NOTE, "4/C09")
-claim("C20", "Coq proof (contract monitor, for every host) on the SZDD/LZSS port + L2 model/C callback correspondence + contract monitor in the instrumented system over all front ends",
+claim("C20", "Coq proof (contract monitor, for every host) on the SZDD/LZSS and KWAJ ports + L2 model/C callback correspondence + contract monitor in the instrumented system over all front ends",
       "Proof: for every oracle the SZDD scripts never raise the monitor's flag: open modes match name kinds, read/write/seek/tell/message only on open handles of the right mode, sizes non-negative, whence in range, free only of NULL or live pointers (2 theorems, closed). Tie as for C09. For CAB/CHM/KWAJ/OAB the same predicate (plus buffer capacity via ASan, copy overlap, filename identity) is checked on the C side only, over corpus/generated/damaged inputs with sampled single faults - partial.",
       NOTE, "4/C20")
 
@@ -35,7 +35,7 @@ claim("C07", "Coq proof (output accounting of the frame loop with an abstract pe
       "Proof: for the accounting shared by lzxd/qtmd/mszipd/noned_decompress (flush stored-up bytes, then min(requested, produced) per frame, error if bytes remain) and any sequence of per-frame outcomes: bytes written <= requested, OK => exactly requested, fewer => non-OK; lifted through the skip-then-extract pair. The tie of this abstract loop to the four C loops is by the LZX/Quantum/MSZIP ports' correspondence (C01) and by the oracle that counts bytes accepted by write() against the declared size for every extract call of the sweep (CAB strict/salvage, CHM, OAB).",
       NOTE, "4/C07")
 
-claim("C10", "Coq proof (host-failure tracking in the monitor semantics, for every host) on the SZDD/LZSS port + L2 correspondence + single-fault sweep of all front ends vs the failure-free run",
+claim("C10", "Coq proof (host-failure tracking in the monitor semantics, for every host) on the SZDD/LZSS and KWAJ ports + L2 correspondence + single-fault sweep of all front ends vs the failure-free run",
       "Proof: for every host, the SZDD decompress script returns last_error = status, and status OK implies that no callback failed anywhere in the script (open/alloc NULL, read error, short or failed write, seek failure) - so an OK result is the failure-free result; wrong SZDD signatures are refused with MSPACK_ERR_SIGNATURE. Tie: identical callback traces/statuses/outputs of port and C under every single fault. CAB/CHM/KWAJ/OAB: each fired single fault on every corpus scenario is compared op by op with the failure-free run on the C side only (partial).",
       NOTE, "4/C10")
 
@@ -43,7 +43,7 @@ claim("C08", "Coq proof (cache-coherence invariant of the decoder-reuse rule, an
       "Proof: C08_mszip_decoder_resumable - on the ported mszipd_decompress a request for a then b bytes equals a request for a + b (output, status, stream state), for every input and state; and over an abstract folder (plaintext, optional damage point, frame granularity) and the reuse rule of cabd_extract (same folder, offset not behind the cursor, live decoder; permanent decoder errors; empty members skipped), every call after ANY history returns what a fresh decoder returns; intact folders always yield the exact slice. The rule is an abstraction of cabd_extract/chmd_extract, tied to the C by the history-vs-fresh oracle on generated cabinets, sets and CHMs (one third with a damaged folder), not by a line-by-line port.",
       NOTE, "4/C08")
 
-claim("C11", "Coq proof (bisimulation: run independent of the contents of fresh memory, for every host) on the SZDD/LZSS port + differential runs of the C library under four allocator fill patterns (hostile inputs: five more, small values that pass for code lengths)",
+claim("C11", "Coq proof (bisimulation: run independent of the contents of fresh memory, for every host) on the SZDD/LZSS and KWAJ ports + differential runs of the C library under four allocator fill patterns (hostile inputs: five more, small values that pass for code lengths)",
       "Proof: for every host and any two contents of freshly allocated memory the complete run of the SZDD scripts (result, every callback with its bytes, ledger) is identical. Tie: L2 correspondence. LZX (early-match rejection), MSZIP, Quantum, KWAJ-LZH, CAB and CHM paths are covered on the C side only: every corpus scenario and hostile inputs reaching unwritten memory are run under four allocator fill patterns and must give identical statuses, listings and bytes - partial.",
       NOTE, "4/C11")
 
